@@ -172,6 +172,18 @@ impl MemoryManager {
     }
 }
 
+impl Drop for MemoryManager {
+    fn drop(&mut self) {
+        // Nobody can hold a reference any more: release what was retired
+        // but had not yet been handed over for an epoch change
+        if let Ok(mut waiting) = self.wait_to_free.lock() {
+            for val in waiting.drain(..) {
+                val.delete();
+            }
+        }
+    }
+}
+
 impl Drop for MemoryManagerInner {
     fn drop(&mut self) {
         for val in self.tofree.drain(..) {
